@@ -158,3 +158,9 @@ func init() {
 		Quick:    tierCfg{Shards: 16, Checks: 20, Procs: []int{4}, TimeoutS: 1200, ReplayRepeat: 10},
 		Thorough: tierCfg{Shards: 16, Checks: 500, Procs: []int{4}, TimeoutS: 7200, ReplayRepeat: 30}}
 }
+
+func init() {
+	specs["C12"] = propSpec{Level: "exploration",
+		Quick:    tierCfg{Shards: 8, Checks: 40, EnumShards: 8, Procs: []int{4}, Parallel: 8, TimeoutS: 600, ReplayRepeat: 3},
+		Thorough: tierCfg{Shards: 8, Checks: 1500, EnumShards: 8, Procs: []int{4}, Parallel: 8, TimeoutS: 10800, ReplayRepeat: 10}}
+}
